@@ -14,10 +14,11 @@ var (
 	models        = map[string]modelFn{}
 	intrinsics    = map[string]modelFn{}
 	interpretPkgs = map[string]bool{
-		"github.com/beevik/etree":                            true,
-		"github.com/russellhaering/goxmldsig/etreeutils":     true,
-		"errors":                                             true,
-		"github.com/russellhaering/goxmldsig/types":          true,
+		"github.com/beevik/etree":                        true,
+		"github.com/russellhaering/goxmldsig/etreeutils": true,
+		"errors": true,
+		"github.com/russellhaering/goxmldsig/types": true,
+		"github.com/russellhaering/goxmldsig":       true,
 	}
 	interpretFuncs = map[string]bool{}
 	pkgInitHooks   = map[string]func(in *Interp, pkg *ssa.Package){}
